@@ -49,9 +49,10 @@ law = Eq(total_particle_count, IndexedSum(occupancy[global_index], global_index)
 
 @validate_input(occupancies_=occupancy)
 @validate_output(total_particle_count)
-def calculate_total_particle_count(occupancies_: Sequence[float]) -> int:
+def calculate_total_particle_count(occupancies_: Sequence[float]) -> float:
     local_index_ = Idx("local_index_", (1, len(occupancies_)))
     result = law.rhs.subs(global_index, local_index_).doit()
     for idx_, count_ in enumerate(occupancies_, 1):
         result = result.subs(occupancy[idx_], count_)
-    return int(result)
+    # average occupancies need not be integers, and neither does their sum
+    return float(result)
